@@ -1692,6 +1692,14 @@ static size_t ZSTD_maxNbSeq(size_t blockSize, unsigned minMatch, int useSequence
     return blockSize / divider;
 }
 
+static ldmParams_t ZSTD_resolveLdmParams(const ldmParams_t* ldmParams, const ZSTD_compressionParameters* cParams)
+{
+    ldmParams_t resolved = *ldmParams;
+    resolved.enableLdm = ZSTD_resolveEnableLdm(resolved.enableLdm, cParams);
+    if (resolved.enableLdm == ZSTD_ps_enable) ZSTD_ldm_adjustParameters(&resolved, cParams);
+    return resolved;
+}
+
 static size_t ZSTD_estimateCCtxSize_usingCCtxParams_internal(
         const ZSTD_compressionParameters* cParams,
         const ldmParams_t* ldmParams,
@@ -1713,9 +1721,11 @@ static size_t ZSTD_estimateCCtxSize_usingCCtxParams_internal(
     size_t const blockStateSpace = 2 * ZSTD_cwksp_alloc_size(sizeof(ZSTD_compressedBlockState_t));
     size_t const matchStateSize = ZSTD_sizeof_matchState(cParams, useRowMatchFinder, /* enableDedicatedDictSearch */ 0, /* forCCtx */ 1);
 
-    size_t const ldmSpace = ZSTD_ldm_getTableSize(*ldmParams);
-    size_t const maxNbLdmSeq = ZSTD_ldm_getMaxNbSeq(*ldmParams, blockSize);
-    size_t const ldmSeqSpace = ldmParams->enableLdm == ZSTD_ps_enable ?
+    /* resolve LDM parameters the way compression does : unset fields are derived from cParams */
+    ldmParams_t const resolvedLdmParams = ZSTD_resolveLdmParams(ldmParams, cParams);
+    size_t const ldmSpace = ZSTD_ldm_getTableSize(resolvedLdmParams);
+    size_t const maxNbLdmSeq = ZSTD_ldm_getMaxNbSeq(resolvedLdmParams, blockSize);
+    size_t const ldmSeqSpace = resolvedLdmParams.enableLdm == ZSTD_ps_enable ?
         ZSTD_cwksp_aligned64_alloc_size(maxNbLdmSeq * sizeof(rawSeq)) : 0;
 
 
